@@ -9,6 +9,7 @@ import (
 
 	"github.com/anishathalye/porcupine"
 	jsonata "github.com/blues/jsonata-go"
+	"github.com/blues/jsonata-go/jtypes"
 
 	"verif/sim/engine"
 )
@@ -112,7 +113,18 @@ func (r *runner) execRegistryOp(t *engine.Task, ti, oi int, op *Op, res *OpResul
 		case "name":
 			m = map[string]jsonata.Extension{"bad-name": {Func: func() float64 { return v }}}
 		case "func":
-			m = map[string]jsonata.Extension{op.Names[0]: {Func: func() (float64, float64) { return v, v }}}
+			// three invalid function shapes; each is offered many times in
+			// one process (a shape rejected once must be rejected again)
+			var bad interface{}
+			switch op.Version % 3 {
+			case 0:
+				bad = func() (float64, float64) { return v, v } // second result is not an error
+			case 1:
+				bad = func(a jtypes.OptionalString, b string) float64 { return v } // non-optional after optional
+			default:
+				bad = func(a ...jtypes.OptionalString) float64 { return v } // optional variadic
+			}
+			m = map[string]jsonata.Extension{op.Names[0]: {Func: bad}}
 		}
 		var err error
 		if op.Kind == "gregexts" {
